@@ -31,6 +31,13 @@ func c15(c *q.Ctx) {
 		}
 		c.WhoWrites("QCPendingTree."+f, allowed, "markers move only through the tree's own update functions")
 	}
+	// "never decreases except by explicit rollback": the unconditional marker move is reachable only from the miner's
+	// own pre-mining reconciliation with its ledger, never from message handling
+	c.WhoCalls("QCPendingTree.enforceUpdateHighQC", map[string]string{bft + "(*Smr).EnforceUpdateHighQC": "exported rollback entry"}, "the unconditional move of the highest-certified marker is the explicit rollback only")
+	c.WhoCalls("Smr.EnforceUpdateHighQC", map[string]string{
+		"bcs/consensus/tdpos::(*tdposConsensus).ProcessBeforeMiner": "the producer re-aligns its marker with its ledger tip before mining",
+		"bcs/consensus/xpoa::(*xpoaConsensus).ProcessBeforeMiner":   "the producer re-aligns its marker with its ledger tip before mining",
+	}, "explicit rollback happens only in the producer's pre-mining reconciliation")
 	c.WhoWrites("ProposalNode.Sons", map[string]string{
 		ctor: "constructor",
 		"kernel/consensus/base/driver/chained-bft/main::*": "stand-alone demo main package",
@@ -122,8 +129,12 @@ func c15(c *q.Ctx) {
 	if io != nil {
 		c.MapDedup(io, "utils.F(i:QuorumCertInterface.GetProposalId(p1.In))", q.ToCall("List.PushBack"), "an orphan that is delivered again is not stored twice")
 	}
+	if io != nil {
+		c.DeadAfter(io, "List.Remove", 0, 2, "the walk over the orphan list steps to the next element before it unlinks the current one: an unlinked element has no successor and the remaining orphans would never be looked at")
+	}
 	ao := c.Fn(bft + "(*QCPendingTree).adoptOrphans")
 	if ao != nil {
+		c.DeadAfter(ao, "List.Remove", 0, 1, "the walk over the orphan list steps to the next element before it unlinks the current one")
 		c.Effect(ao, q.Eff{Spec: "List.Remove", Arg: 0, Glob: "*", Req: []q.Cond{{Canon: "bytes.Equal(i:QuorumCertInterface.GetParentProposalId(*.In),i:QuorumCertInterface.GetProposalId(p1.In))", Sense: true}}, Why: "an adopted orphan leaves the orphan list (it is stored exactly once)", Rule: "K2"})
 	}
 	pm := c.Fn(bft + "(*DefaultPaceMaker).AdvanceView")
